@@ -1,4 +1,4 @@
-// Command c20 exercises tsp.LIB: every position of a failing Write x {error, short write} x
+// Command c20 exercises tsp.LIB: every position of a failing Write x {error, short write, full count + error} x
 // {transient, permanent}, and the content of the complete output (C20).
 package main
 
@@ -20,6 +20,7 @@ type fwriter struct {
 	calls     int
 	idx       int // -1: never
 	short     bool
+	full      bool // the failing call accepts all bytes and still returns an error
 	permanent bool
 	buf       []byte
 }
@@ -28,6 +29,10 @@ func (w *fwriter) Write(p []byte) (int, error) {
 	k := w.calls
 	w.calls++
 	if w.idx >= 0 && (k == w.idx || (w.permanent && k > w.idx)) {
+		if w.full {
+			w.buf = append(w.buf, p...)
+			return len(p), errInjected
+		}
 		if w.short && len(p) > 0 {
 			w.buf = append(w.buf, p[:len(p)/2]...)
 			return len(p) / 2, errInjected
@@ -38,10 +43,21 @@ func (w *fwriter) Write(p []byte) (int, error) {
 	return len(p), nil
 }
 
+// formula weights for large instances (case syntax w=#): the same function is in the driver
+func formulaWeight(i, j int) int { return (i*31+j*17)%1000 - 500 }
+
 func parse(line string) (n int, failspec, kind string, vals []int) {
 	f := strings.Split(line, ";")
 	n, _ = strconv.Atoi(f[0])
 	failspec, kind = f[1], f[2]
+	if f[3] == "w=#" {
+		for i := 0; i < n; i++ {
+			for j := 0; j < i; j++ {
+				vals = append(vals, formulaWeight(i, j))
+			}
+		}
+		return
+	}
 	for _, s := range strings.Split(strings.TrimPrefix(f[3], "w="), ",") {
 		if s != "" {
 			v, _ := strconv.Atoi(s)
@@ -92,7 +108,7 @@ func exec(line string) hx.Result {
 	}
 	calls = nil
 	domainOK = true
-	w := &fwriter{idx: idx, short: kind == "s" || kind == "S", permanent: kind == "E" || kind == "S"}
+	w := &fwriter{idx: idx, short: kind == "s" || kind == "S", full: kind == "c" || kind == "C", permanent: kind == "E" || kind == "S" || kind == "C"}
 	err := tsp.LIB(w, n, weights)
 	if idx >= 0 && idx < total && err == nil {
 		res.Viol = append(res.Viol, hx.Fail("", "LIB returned nil although Write call %d of %d failed (%s, kind %s)", idx, total, failspec, kind))
@@ -113,11 +129,20 @@ func exec(line string) hx.Result {
 		}
 		sb.WriteString(";lines=" + strings.Join(ls, "/"))
 	}
-	cs := make([]string, len(calls))
-	for i, c := range calls {
-		cs[i] = fmt.Sprintf("%d.%d", c.i, c.j)
+	if strings.HasSuffix(line, "w=#") {
+		// large instance: number of weights calls and a position-dependent checksum of them
+		sum := 0
+		for k, c := range calls {
+			sum = (sum + (c.i*1009+c.j)*(k%977+1)) % 1000000007
+		}
+		fmt.Fprintf(&sb, " ## calls#=%d:%d", len(calls), sum)
+	} else {
+		cs := make([]string, len(calls))
+		for i, c := range calls {
+			cs[i] = fmt.Sprintf("%d.%d", c.i, c.j)
+		}
+		sb.WriteString(" ## calls=" + strings.Join(cs, ","))
 	}
-	sb.WriteString(" ## calls=" + strings.Join(cs, ","))
 	res.Obs = sb.String()
 	res.Nontrivial = idx >= 3 && idx < 3+c // failure index inside the weight section
 	res.Buckets = []string{"n=" + strconv.Itoa(n), "fail:" + strings.TrimRight(failspec, "0123456789") + "/" + kind}
@@ -172,7 +197,7 @@ func gen(g *hx.Gen) {
 			// measured number of flush writes, so j up to 3*cells+n+2 covers every index.
 			cells := n*(n+1)/2 + n
 			limit := 3*cells + 3
-			for _, kind := range []string{"e", "s", "E", "S"} {
+			for _, kind := range []string{"e", "s", "c", "E", "S", "C"} {
 				for _, h := range []string{"h0", "h1", "h2", "eof"} {
 					emit(n, h, kind, vals)
 				}
@@ -182,12 +207,41 @@ func gen(g *hx.Gen) {
 			}
 		}
 	}
-	g.Exhaustive(fmt.Sprintf("every Write call index of the complete output x {error, short} x {transient, permanent} for every n <= %d (4 weight styles for n<=5, 2 above)", maxN))
+	g.Exhaustive(fmt.Sprintf("every Write call index of the complete output x {error with zero count, short count, full count} x {transient, permanent} for every n <= %d (4 weight styles for n<=5, 2 above)", maxN))
+	kinds := []string{"e", "s", "c", "E", "S", "C"}
 	for i := 0; i < g.Pick(300, 3000); i++ {
 		n := g.Rng.Range(0, 24)
 		vals := genWeights(g.Rng, n, g.Rng.Intn(4))
 		emit(n, "none", "e", vals)
-		emit(n, "f"+strconv.Itoa(g.Rng.Intn(4000)), []string{"e", "s", "E", "S"}[g.Rng.Intn(4)], vals)
+		emit(n, "f"+strconv.Itoa(g.Rng.Intn(4000)), kinds[g.Rng.Intn(len(kinds))], vals)
+	}
+	// large instances (formula weights, syntax w=#): sizes around powers of two and other
+	// thresholds where buffering / chunking of the output could change, with a transient
+	// failure at every write index (stride in the quick tier for the largest ones)
+	emitF := func(n int, failspec, kind string) { g.Emit(fmt.Sprintf("%d;%s;%s;w=#", n, failspec, kind)) }
+	for _, n := range []int{31, 32, 33, 63, 64, 65, 66, 100, 127, 128, 129, 130} {
+		emitF(n, "none", "e")
+		cells := n*(n+1)/2 + n
+		limit := 3*cells + 3
+		stride := g.Pick(5, 1)
+		if n > 40 {
+			stride = g.Pick(17, 1)
+		}
+		if n > 70 {
+			stride = g.Pick(211, 5)
+		}
+		for _, kind := range []string{"e", "c"} {
+			for _, h := range []string{"h0", "h1", "h2", "eof"} {
+				emitF(n, h, kind)
+			}
+			for j := 0; j < limit; j += stride {
+				emitF(n, "f"+strconv.Itoa(j), kind)
+			}
+		}
+	}
+	for i := 0; i < g.Pick(400, 6000); i++ {
+		n := g.Rng.Range(25, 200)
+		emitF(n, "f"+strconv.Itoa(g.Rng.Intn(1<<20)), kinds[g.Rng.Intn(len(kinds))])
 	}
 }
 
